@@ -797,7 +797,13 @@ func (g *gen) createStmt(f *frame) {
 	case 1:
 		// keep the address: EXTCODESIZE / EXTCODEHASH of the new contract
 		g.o(f, 0x80, 0, 1)
-		g.o(f, byte([]byte{0x3b, 0x3f, 0x31}[g.i(0, 2, "cq")]), 1, 1)
+		q := []byte{0x3b, 0x3f, 0x31}[g.i(0, 2, "cq")]
+		if q == 0x3f && g.avoidNonce {
+			// S16 (nonce 0) open: EXTCODEHASH of a fresh contract without code is 0 (account "empty")
+			g.excl[sigS16Nonce] = true
+			q = 0x3b
+		}
+		g.o(f, q, 1, 1)
 		g.store(f)
 		g.store(f)
 	default:
